@@ -189,6 +189,7 @@ fn gen_font_spec(rng: &mut Rng, flavour: &str) -> FontSpec {
         1 => 2,
         2 => 3 + rng.usize(5),
         3 => 255 + rng.usize(4),
+        4 if rng.chance(1, 4) => 300 + rng.usize(3000),
         _ => 4 + rng.usize(36),
     };
     let mut s = FontSpec { n, ..Default::default() };
@@ -506,8 +507,9 @@ pub fn gen_scenario(seed: u64, index: usize, tier_thorough: bool) -> Scenario {
     // the 16 MB flavours are expensive: rare
     let nf = FLAVOURS.len();
     let mut fi = (index + index / 16) % (nf - 2);
-    if index % 397 == 5 || (tier_thorough && index % 97 == 5) {
-        fi = nf - 2 + (index / 97) % 2;
+    let _ = tier_thorough;
+    if index % 397 == 5 {
+        fi = nf - 2 + (index / 397) % 2;
     }
     let flavour = FLAVOURS[fi];
     let mut fs = gen_font_spec(rng, flavour);
@@ -1141,6 +1143,26 @@ fn initial_state(sc: &Scenario, rng: &mut Rng) -> State {
 
 fn run_history(ctx: &mut Ctx, sc: &Scenario, rng: &mut Rng) {
     let mut st = initial_state(sc, rng);
+    // the caller's bookkeeping may say "already applied" for some glyph-keyed URIs: they must be skipped
+    if rng.chance(1, 4) {
+        let mut keys: Vec<String> = sc
+            .patches
+            .iter()
+            .filter(|(_, p)| matches!(p, PatchModel::Gk { .. }))
+            .map(|(u, _)| u.clone())
+            .collect();
+        keys.sort();
+        let mut n = 0;
+        for k in keys {
+            if rng.chance(1, 3) {
+                st.map.insert(k, UriStatus::Applied);
+                n += 1;
+            }
+        }
+        if n > 0 {
+            ctx.count("history_with_caller_marked_applied", 1);
+        }
+    }
     let mut rounds = 0;
     while rounds < 8 && run_round(ctx, sc, &mut st, rounds) {
         rounds += 1;
@@ -1611,6 +1633,35 @@ fn run_malformed(ctx: &mut Ctx, sc: &Scenario, rng: &mut Rng) {
     if victims.is_empty() {
         return;
     }
+    // a group member without any bookkeeping entry: MissingPatches, nothing touched
+    {
+        let victim = rng.pick(&victims).clone();
+        let mut map = clone_map(&st0.map);
+        map.remove(&victim);
+        let snapshot = clone_map(&map);
+        let dec = FaultyDecoder::new(sc.real, None);
+        ctx.eval();
+        if let Some(r) = apply_group(ctx, &sc.font, &mut map, &dec, &format!("scenario {} missing data", sc.index)) {
+            let cj = json!({"variant": "missing-patch-data", "victim": victim, "group": uris});
+            match r {
+                Err(p) => ctx.judge_panic(&p, "apply_next_patches_with_decoder (missing data)", case_json(sc, cj), Some(&sc.font)),
+                Ok(Ok(_)) => {
+                    ctx.violation(&sig("malformed-accepted:missing-patch-data", sc, "group"), case_json(sc, cj), Some(&sc.font));
+                }
+                Ok(Err(e)) => {
+                    ctx.count("malformed:missing-patch-data", 1);
+                    ctx.label("malformed_errors", &format!("missing-patch-data -> {e:?}"));
+                    if let Some(df) = map_diff(&snapshot, &map) {
+                        ctx.violation(
+                            &sig("bookkeeping:changed-on-error:missing-patch-data", sc, "group"),
+                            case_json(sc, json!({"case": cj, "diff": df})),
+                            Some(&sc.font),
+                        );
+                    }
+                }
+            }
+        }
+    }
     for variant in 0..12 {
         let victim = rng.pick(&victims).clone();
         let Some(compat) = compat_of(sc, &victim) else { continue };
@@ -1758,7 +1809,7 @@ pub fn run(ctx: &mut Ctx, _args: &Args) {
     let thorough = ctx.tier.is_thorough();
     // VF_C18_DIRECTED_ONLY=1: only the hand-built corner cases (reproducers of the known findings)
     let directed_only = std::env::var("VF_C18_DIRECTED_ONLY").is_ok();
-    let total = if directed_only { 0 } else { ctx.tier.pick(16 * 420, 16 * 4200) };
+    let total = if directed_only { 0 } else { ctx.tier.pick(16 * 2400, 16 * 24000) };
     let seed = ctx.seed;
     for i in 0..total {
         if !ctx.mine(i) {
@@ -1787,12 +1838,7 @@ pub fn run(ctx: &mut Ctx, _args: &Args) {
             run_stale_info(ctx, &sc, &mut rng);
         }
     }
-    let fp = ctx_counter(ctx);
-    ctx.level = if fp { "fault_enumeration".into() } else { "exploration".into() };
-}
-
-/// fault enumeration is the dominant mode when most evaluations are
-/// fault-injected runs (decided statically after measuring: see report)
-fn ctx_counter(_ctx: &Ctx) -> bool {
-    false
+    // Fault enumeration (k x kind, exhaustive per application) is one of four
+    // drivers; most evaluations are order/partition and exploration runs.
+    ctx.level = "exploration".into();
 }
